@@ -8,6 +8,7 @@ import common
 import kprop
 import kx
 import vx
+import prop_asm
 
 PROP = 'C10'
 
@@ -92,12 +93,21 @@ def run(tier):
         dict(row='point_query_order', contract='CodeSpan(p, p+1) is Equal to exactly the span containing p and ordered correctly against every other span'),
         dict(row='span_new_refuses_empty', contract='CodeSpan::new returns only if start < end'),
     ]
+    assumptions.append('GcPointTable / LocationTable (c10_tables.vspec): `binary_search_by_key` through a closure is wrapped with an ASSUMED std contract; the ordering precondition of insert '
+                       '(debug_assert!(offset > last.0): offsets strictly increasing) is the CALLER\'s obligation and is not proved for the code generators')
+    samples.append(dict(function='GcPointTable::get', contract='requires offsets strictly increasing; ensures Some(map of exactly that return offset) or None iff no entry has that offset'))
+    samples.append(dict(function='LocationTable::insert', contract='requires ordered && offset > last; ensures entries == old.push(..) && ordered (source-position tables stay ordered)'))
     not_decided = ['presence and shape of stack maps (gc points) at every call site / safepoint in emitted code',
                    'slot ranges inside frames, `.s` metadata, arm64, the optimizing generator',
-                   'GcPointTable / LocationTable::get (exact-offset binary search through a closure: outside both verifiers without wrapping the comparison itself)',
+                   'that the code generators call GcPointTable/LocationTable::insert with increasing offsets and positions inside the function',
                    'BTreeMap itself (assumed)']
+
+    def steps(rep, cov):
+        n = _verus_codemap(rep, cov) or 0
+        n += prop_asm.verus_unit_step('c10_tables.vspec')(rep, cov) or 0
+        return n
     return kprop.run_kani_property(PROP, tier, ['c10'], assumptions=assumptions, samples=samples, not_decided=not_decided,
-                                   row_filter=_row_filter, extra_steps=_verus_codemap)
+                                   row_filter=_row_filter, extra_steps=steps)
 
 
 def replay(rp):
